@@ -467,3 +467,51 @@ Proof.
     apply split_colon in E; [|exact Hc|unfold colon_free, XMLNS_, COLON; cbn; intros HX; repeat (destruct HX as [HX|HX]; [discriminate HX|]); exact HX]. destruct E as [-> _].
     apply Ha. apply (c_xml _ _ _ HC _ _ EG). reflexivity.
 Qed.
+
+(* ---- the table binds nothing but namespaces that were met ------------------------------------------------ *)
+Lemma nnd_keys taken (pm pm' : pmap) n : new_namespace_declaration taken pm n = Ok pm' ->
+  forall x, In x (dict_keys pm') -> x = n \/ In x (dict_keys pm).
+Proof.
+  unfold new_namespace_declaration. destruct (nsd_loop _ _ _ _); [|discriminate]. intros H. injection H as <-.
+  intros x Hx. apply dict_set_keys_inv in Hx. exact Hx.
+Qed.
+Lemma step_keys data (pm pm' : pmap) n : collect_step data pm n = Ok pm' ->
+  forall x, In x (dict_keys pm') -> x = n \/ In x (dict_keys pm).
+Proof.
+  unfold collect_step. destruct (dict_has n pm); [intros H; injection H as <-; auto|].
+  destruct (null n) eqn:EN.
+  - unfold redeclare_empty_prefix. destruct (find (fun kv => null (snd kv)) pm) as [[other p0]|] eqn:EF.
+    + apply find_some in EF. destruct EF as [Hin _].
+      destruct (new_namespace_declaration (dict_keys data) pm other) as [pm1| | |] eqn:E1; cbn [bind]; try discriminate.
+      intros H. injection H as <-. intros x Hx. apply dict_set_keys_inv in Hx. destruct Hx as [->|Hx].
+      * left. destruct n; [reflexivity | discriminate].
+      * right. destruct (nnd_keys _ _ _ _ E1 x Hx) as [->|H']; [eapply In_keys; exact Hin | exact H'].
+    + cbn [bind]. intros H. injection H as <-. intros x Hx. apply dict_set_keys_inv in Hx. destruct Hx as [->|Hx].
+      * left. destruct n; [reflexivity | discriminate].
+      * right. exact Hx.
+  - destruct (lookup_prefix data n) as [q|].
+    + destruct (null q && py_in_str [] (dict_values pm))%bool; [apply nnd_keys|].
+      destruct (negb (null q)).
+      * destruct (py_in_str (q ++ [COLON]) (dict_values pm)); [discriminate|].
+        intros H. injection H as <-. intros x Hx. apply dict_set_keys_inv in Hx. exact Hx.
+      * destruct (py_in_str [] (dict_values pm)); [discriminate|].
+        intros H. injection H as <-. intros x Hx. apply dict_set_keys_inv in Hx. exact Hx.
+    + apply nnd_keys.
+Qed.
+Lemma loop_keys data nss : forall (pm pm' : pmap), collect_loop data pm nss = Ok pm' ->
+  forall x, In x (dict_keys pm') -> In x nss \/ In x (dict_keys pm).
+Proof.
+  induction nss as [|n r IH]; cbn [collect_loop]; intros pm pm' H x Hx.
+  - injection H as <-. right. exact Hx.
+  - destruct (collect_step data pm n) as [pm1| | |] eqn:E1; cbn [bind] in H; try discriminate.
+    destruct (IH _ _ H x Hx) as [H1|H1]; [left; right; exact H1|].
+    destruct (step_keys _ _ _ _ E1 x H1) as [->|H2]; [left; left; reflexivity | right; exact H2].
+Qed.
+Lemma collect_keys caller root_ns ord (pm : pmap) : collect caller root_ns ord = Ok pm ->
+  forall x, In x (dict_keys pm) -> x = root_ns \/ In x (concat ord).
+Proof.
+  unfold collect. destruct (normalize caller) as [data| | |]; cbn [bind]; try discriminate.
+  unfold collect_from. intros H x Hx. destruct (loop_keys _ _ _ _ H x Hx) as [H1|H1]; [right; exact H1|].
+  unfold initial_prefixes in H1. destruct (py_in_str root_ns (dict_values data)); [destruct H1|].
+  destruct H1 as [<-|[]]. left. reflexivity.
+Qed.
